@@ -186,6 +186,7 @@ func cmdCheck(args []string) int {
 		fmt.Printf("VIOLATION property=%s replay=%s obligation=generation %s no-failing-input-found\n", def.ID, path, oneLine(ge))
 	}
 	st := lastSymtab
+	nodeReplays := 0
 	for _, v := range viols {
 		nviol++
 		o := v.o
@@ -201,9 +202,19 @@ func cmdCheck(args []string) int {
 		rep := map[string]any{"property": def.ID, "obligation": o.Name, "function": o.Func, "kind": o.Kind, "position": o.Pos,
 			"clause": o.Note, "solver_result": o.Result, "solver": o.Solver, "solver_output": o.Stdout, "query": smtPath}
 		confirmed := false
-		if o.Result == "sat" && o.Model != "" {
-			rep["model"] = modelSummary(o.Model)
-			if rr := tryReplay(res, o); rr != nil {
+		if (o.Result == "sat" && o.Model != "") || nodeFnRe.MatchString(o.Func) {
+			var rr map[string]any
+			if o.Result == "sat" && o.Model != "" {
+				rep["model"] = modelSummary(o.Model)
+				rr = tryReplay(res, o)
+			}
+			if rr == nil && nodeReplays < 6 && st != nil {
+				// node-level counterexample: rebuild the node from the model and run the real operation
+				if rr = tryReplayNode(o, o.Query(st)); rr != nil {
+					nodeReplays++
+				}
+			}
+			if rr != nil {
 				rep["replay"] = rr
 				if c, _ := rr["confirmed"].(bool); c {
 					confirmed = true
